@@ -72,6 +72,7 @@ PURE_MODULES = {'re', 'regex', 'itertools', 'math', 'collections', 'functools', 
 TRANSPARENT_DECORATORS = {'dataclass', 'property', 'setter', 'cached_property', 'wraps', 'staticmethod', 'classmethod',
                           '_validate_single_mod_multiplier', 'lru_cache', 'cache'}
 RNG = 0   # global id of the module random generator
+RECORD_TAGS = {'mod', 'interval', 'fragment', 'fmatch', 'enzcfg', 'modentry'}
 RNG_METHODS = {'shuffle', 'seed', 'random', 'randint', 'choice', 'choices', 'sample', 'uniform', 'gauss', 'getrandbits', 'randrange'}
 BUILTIN_NAMES = {'int', 'float', 'str', 'bool', 'list', 'dict', 'set', 'tuple', 'bytes', 'object', 'type', 'len', 'print', 'range',
                  'True', 'False', 'None', 'List', 'Dict', 'Tuple', 'Set', 'Union', 'Optional', 'Any', 'Callable', 'Counter',
@@ -118,6 +119,7 @@ class Package:
         self.gnames = ['random (module generator)']
         self.imports = {}       # module -> {local name: ('mod', modname) | ('obj', modname, name)}
         self.unknown_decorators = set()
+        self.type_aliases = {}  # module-level `X = Union[...]` style aliases
         for root, dirs, files in os.walk(src):
             dirs.sort()
             for fn in sorted(files):
@@ -165,6 +167,9 @@ class Package:
                                     'map_hill_order')) or isinstance(val, ast.BinOp) and isinstance(val.left, (ast.List, ast.Name)) and \
                     isinstance(val.op, ast.Add) and isinstance(val.right, (ast.List, ast.Name))
                 for t in targets:
+                    if isinstance(t, ast.Name) and not mutable and isinstance(val, ast.Subscript) and isinstance(val.value, ast.Name) \
+                            and val.value.id in ('Union', 'Optional', 'List', 'Dict', 'Tuple', 'Set', 'Literal'):
+                        self.type_aliases[t.id] = val
                     if isinstance(t, ast.Name) and mutable and not t.id.startswith('__'):
                         gid = len(self.gnames)
                         self.gnames.append(f'{mod}.{t.id}')
@@ -239,14 +244,17 @@ ANNOT_ATTR_TYPES['charge_adducts'] = 'list:mod'
 ANNOT_ATTR_TYPES['_charge_adducts'] = 'list:mod'
 
 
-def type_of_annotation(node, pkg):
-    """coarse type tag of a type annotation"""
-    if node is None:
+def type_of_annotation(node, pkg, depth=0):
+    """coarse type tag of a type annotation.
+    'scalar' = immutable value (numbers, strings, tuples of them); 'scalars' = a mutable container whose elements are all scalar;
+    'list:T' / 'dict:V' = containers with element / value type T / V; record and class tags; 'unknown'."""
+    if node is None or depth > 6:
         return 'unknown'
+    T = lambda n: type_of_annotation(n, pkg, depth + 1)   # noqa
     if isinstance(node, ast.Constant):
         if isinstance(node.value, str):
             try:
-                return type_of_annotation(ast.parse(node.value, mode='eval').body, pkg)
+                return T(ast.parse(node.value, mode='eval').body)
             except SyntaxError:
                 return 'unknown'
         return 'scalar'
@@ -256,45 +264,69 @@ def type_of_annotation(node, pkg):
             return pkg.class_tag(nm)
         if nm in ('str', 'int', 'float', 'bool', 'None', 'bytes', 'Span'):
             return 'scalar'
-        if nm in ('Dict', 'dict', 'ChemComposition', 'ModDict', 'Counter', 'CounterType', 'DefaultDict'):
+        if nm in ('ChemComposition',):
+            return 'scalars'        # Dict[str, Union[int, float]]
+        if nm in ('Dict', 'dict', 'ModDict', 'Counter', 'CounterType', 'DefaultDict'):
             return 'dict'
         if nm in ('List', 'list', 'Set', 'set', 'Iterable', 'Sequence', 'Generator', 'Iterator', 'Tuple', 'tuple'):
             return 'list:unknown'
-        if nm in ('FRAGMENT_RETURN_TYPING', 'DIGEST_RETURN_TYPING'):
-            return 'list:unknown'
-        if nm in ('ModValue',):
+        if nm in ('FRAGMENT_RETURN_TYPING', 'DIGEST_RETURN_TYPING', 'ModValue'):
             return 'unknown'
+        if nm in pkg.type_aliases:
+            return T(pkg.type_aliases[nm])
         return 'unknown'
     if isinstance(node, ast.Subscript):
         base = node.value.id if isinstance(node.value, ast.Name) else getattr(node.value, 'attr', '')
         sl = node.slice
         items = list(sl.elts) if isinstance(sl, ast.Tuple) else [sl]
         if base in ('List', 'list', 'Set', 'set', 'Iterable', 'Sequence', 'Generator', 'Iterator'):
-            return 'list:' + type_of_annotation(items[0], pkg).split(':')[0]
+            t = T(items[0])
+            return 'scalars' if t == 'scalar' else 'list:' + t
         if base in ('Tuple', 'tuple'):
-            return 'list:unknown'
+            ts = [T(i) for i in items if not (isinstance(i, ast.Constant) and i.value is Ellipsis)]
+            return 'scalar' if ts and all(t == 'scalar' for t in ts) else 'list:unknown'
         if base in ('Dict', 'dict', 'DefaultDict', 'Counter'):
-            return 'dict'
+            vt = T(items[1]) if len(items) == 2 else 'unknown'
+            return 'scalars' if vt == 'scalar' else ('dict' if vt == 'unknown' else 'dict:' + vt)
         if base == 'Optional':
-            return type_of_annotation(items[0], pkg)
+            return T(items[0])
         if base == 'Union':
-            ts = [type_of_annotation(i, pkg) for i in items]
-            for pref in ('annot', 'multi', 'dict'):
+            ts = [T(i) for i in items]
+            for pref in ('annot', 'multi'):
                 if pref in ts:
                     return pref
+            for t in ts:
+                if t.startswith('dict'):
+                    return t
             for t in ts:
                 if t.startswith('list'):
                     return t
             for t in ts:
-                if t not in ('scalar', 'unknown'):
+                if t not in ('scalar', 'scalars', 'unknown'):
                     return t
-            return 'scalar' if all(t == 'scalar' for t in ts) else 'unknown'
+            if 'unknown' in ts:
+                return 'unknown'
+            return 'scalars' if 'scalars' in ts else 'scalar'
         if base == 'Literal':
             return 'scalar'
         return 'unknown'
     if isinstance(node, ast.BinOp):   # X | Y
-        return type_of_annotation(ast.Subscript(value=ast.Name(id='Union'), slice=ast.Tuple(elts=[node.left, node.right])), pkg)
+        return T(ast.Subscript(value=ast.Name(id='Union'), slice=ast.Tuple(elts=[node.left, node.right])))
     return 'unknown'
+
+
+def cast_of_type(ty):
+    """('rec', d) if values of this static type are records at depth d (0..2), ('leaf',) for containers of scalars, else None"""
+    if ty == 'scalars':
+        return ('leaf',)
+    parts = ty.split(':')
+    d = 0
+    while parts and parts[0] in ('list', 'dict', 'kv') and d < 3:
+        parts = parts[1:]
+        d += 1
+    if parts and parts[0] in RECORD_TAGS and len(parts) == 1 and d <= 2:
+        return ('rec', d)
+    return None
 
 
 # ------------------------------------------------------------------------------------------------ function translation
@@ -337,6 +369,8 @@ class FnTranslation:
         self.weak = set()        # names whose assignments must not rename (inside loops / try bodies)
         self.globals_decl = set()
         self.local_funcs = {}    # name -> (param var ids, result var)
+        self.recvars = set()
+        self.in_local = False    # inside a nested def / lambda body (its returns are not the function's)
         for p in fn.allparams:
             self.cur[p] = self.newvar(p, raw=True)
         self.nparams = len(fn.allparams)
@@ -346,7 +380,7 @@ class FnTranslation:
             if p == 'self' and fn.cls:
                 t = self.pkg.class_tag(fn.cls)
             if p == fn.vararg:
-                t = 'list:' + t.split(':')[0]
+                t = 'scalars' if t == 'scalar' else 'list:' + t
             self.addtype(self.cur[p], t)
 
     # ---- variables
@@ -386,6 +420,7 @@ class FnTranslation:
             x = self.newvar(name + '#', raw=False)
             self.cur[name] = x
         if v is not None:
+            v = self.rec_wrap(v, ty)
             self.emit('alias', x, (v,))
         self.addtype(x, ty)
         if v is not None:
@@ -491,7 +526,9 @@ class FnTranslation:
         if isinstance(st, ast.Return):
             if st.value is not None:
                 v = self.expr(st.value)
-                if v is not None:
+                rt = type_of_annotation(self.fn.returns, self.pkg) if not self.in_local else 'unknown'
+                if v is not None and rt != 'scalar':        # a function annotated to return a number / string returns nothing shared
+                    v = self.rec_wrap(v, rt)
                     self.emit('alias', self.ret, (v,))
             return True
         if isinstance(st, ast.Raise):
@@ -562,6 +599,7 @@ class FnTranslation:
                 return self.block(st.orelse)
             self.expr(st.test)
             pre = dict(self.cur)
+            self.narrow(st.test)
             a = self.block(st.body)
             s1 = self.cur
             self.cur = dict(pre)
@@ -575,9 +613,9 @@ class FnTranslation:
             return False
         if isinstance(st, (ast.For, ast.AsyncFor)):
             it = self.expr(st.iter)
-            ety = self.elemtype(self.typeof(st.iter))
+            ety = self.untrunc(self.elemtype(self.typeof(st.iter)))
             saved = self.weaken(self.assigned_names([st.target] + st.body + st.orelse))
-            if it is not None:
+            if it is not None and ety != 'scalar':
                 e = self.newvar('it')
                 self.emit('elem', e, it)
                 self.assign(st.target, e, ety, None, unpack_elem=True)
@@ -633,9 +671,16 @@ class FnTranslation:
             return False
         raise NotImplementedError(ast.dump(st)[:100])
 
-    def isinstance_types(self, test):
-        """`isinstance(x, Mod)` teaches nothing we rely on; kept for symmetry"""
-        return
+    def narrow(self, test):
+        """`if isinstance(x, Mod):` - inside the branch x is a record"""
+        if isinstance(test, ast.Call) and isinstance(test.func, ast.Name) and test.func.id == 'isinstance' and len(test.args) == 2 \
+                and isinstance(test.args[0], ast.Name) and isinstance(test.args[1], ast.Name):
+            nm, cls = test.args[0].id, test.args[1].id
+            if cls in self.pkg.classes and nm in self.cur and self.cur[nm] is not None:
+                tag = self.pkg.class_tag(cls)
+                if tag in RECORD_TAGS:
+                    v = self.rec_wrap(self.cur[nm], tag)
+                    self.cur[nm] = v
 
     def global_write_check(self, name):
         if name in self.globals_decl:
@@ -658,15 +703,18 @@ class FnTranslation:
                 for t, e in zip(target.elts, value_node.elts):
                     self.assign(t, self.expr(e), self.typeof(e), e)
                 return
-            for t in target.elts:
+            subtypes = ['unknown'] * len(target.elts)
+            if ty and ty.startswith('kv') and len(target.elts) == 2:      # (key, value) of dict.items(): keys are hashable values
+                subtypes = ['scalar', self.untrunc(ty.split(':', 1)[1]) if ':' in ty else 'unknown']
+            for t, sty in zip(target.elts, subtypes):
                 if isinstance(t, ast.Starred):
                     t = t.value
-                if v is not None:
+                if v is not None and sty != 'scalar':
                     e = self.newvar('un')
                     self.emit('elem', e, v)
-                    self.assign(t, e, 'unknown', None)
+                    self.assign(t, e, sty, None)
                 else:
-                    self.assign(t, None, 'unknown', None)
+                    self.assign(t, None, sty, None)
             return
         if isinstance(target, ast.Attribute):
             base = self.expr(target.value)
@@ -747,14 +795,23 @@ class FnTranslation:
         res = self.newvar(name + '.ret')
         self.ret = res
         self.local_funcs[name] = (params, res)
+        saved_local, self.in_local = self.in_local, True
         self.block(body)
+        self.in_local = saved_local
         self.ret = saved_ret
         self.cur = saved_cur
         self.cur[name] = None
 
     # ---- types of expressions
     def elemtype(self, t):
+        if t == 'scalars':
+            return 'scalar'
         return t.split(':', 1)[1] if t.startswith('list:') else 'unknown'
+
+    @staticmethod
+    def untrunc(t):
+        """type tags are cut after one level of nesting: a bare 'list' / 'dict' element tag means a container of unknown content"""
+        return {'list': 'list:unknown'}.get(t, t)
 
     def typeof(self, e):
         if e is None:
@@ -777,7 +834,8 @@ class FnTranslation:
             return 'unknown'
         if isinstance(e, (ast.List, ast.ListComp, ast.Set, ast.SetComp, ast.Tuple, ast.GeneratorExp)):
             if isinstance(e, (ast.ListComp, ast.SetComp, ast.GeneratorExp)):
-                return 'list:' + self.typeof(e.elt).split(':')[0]
+                t = self.typeof(e.elt)
+                return 'scalars' if t == 'scalar' else 'list:' + t
             return 'list:unknown'
         if isinstance(e, (ast.Dict, ast.DictComp)):
             return 'dict'
@@ -812,7 +870,11 @@ class FnTranslation:
                 return self.typeof(e.value)
             bt = self.typeof(e.value)
             if bt.startswith('list:'):
-                return self.elemtype(bt)
+                return self.untrunc(self.elemtype(bt))
+            if bt.startswith('dict:'):
+                return self.untrunc(bt.split(':', 1)[1])
+            if bt == 'scalars':
+                return 'scalar'
             return 'unknown'
         if isinstance(e, ast.Call):
             f = e.func
@@ -820,8 +882,12 @@ class FnTranslation:
                 if f.id in ('deepcopy',) and e.args:
                     return self.typeof(e.args[0])
                 if f.id in ('list', 'sorted', 'tuple', 'set', 'reversed', 'zip', 'enumerate', 'range', 'filter', 'map'):
+                    if f.id == 'range':
+                        return 'scalars'
                     if f.id in ('list', 'sorted', 'tuple', 'set', 'reversed') and e.args:
                         t = self.typeof(e.args[0])
+                        if t == 'scalars':
+                            return 'scalars'
                         return t if t.startswith('list:') else 'list:unknown'
                     return 'list:unknown'
                 if f.id in ('dict', 'Counter', 'defaultdict', 'OrderedDict'):
@@ -847,8 +913,15 @@ class FnTranslation:
                     return type_of_annotation(self.pkg.funcs[self.pkg.classes[cls]['methods'][f.attr]].returns, self.pkg)
                 if rt in ('scalar',):
                     return 'scalar' if f.attr not in ('split', 'splitlines', 'rsplit', 'partition') else 'list:scalar'
-                if rt == 'dict' and f.attr in ('items', 'values', 'keys'):
-                    return 'list:unknown'
+                if (rt.startswith('dict') or rt == 'scalars') and f.attr in ('items', 'values', 'keys'):
+                    vt = 'scalar' if rt == 'scalars' else (rt.split(':', 1)[1] if ':' in rt else 'unknown')
+                    if f.attr == 'keys':
+                        return 'scalars'
+                    if f.attr == 'items':
+                        return 'list:kv:' + vt
+                    return 'scalars' if vt == 'scalar' else 'list:' + vt
+                if rt == 'scalars' and f.attr in ('get', 'pop', 'setdefault', 'index', 'count'):
+                    return 'scalar'
                 if f.attr in ('join', 'format', 'serialize', 'strip' if rt == 'scalar' else 'join', 'lower', 'upper', 'replace'):
                     return 'scalar'
             return 'unknown'
@@ -856,6 +929,27 @@ class FnTranslation:
 
     # ---- expressions: returns a var id holding the value (or None for values that denote nothing mutable)
     def expr(self, e):
+        v = self._expr(e)
+        if v is None or isinstance(e, (ast.Lambda, ast.Starred)):
+            return v
+        return self.rec_wrap(v, self.typeof(e))
+
+    def rec_wrap(self, v, ty):
+        """cast by static type: a record (or container of records) handed in by the caller is seen as `recd i` from the record
+        level down; a container of scalars has nothing mutable below it"""
+        c = cast_of_type(ty or 'unknown')
+        if v is None or c is None or (v, c) in self.recvars:
+            return v
+        t = self.newvar('cast')
+        if c[0] == 'leaf':
+            self.emit('leaf', t, v)
+        else:
+            self.emit('asRec', t, v, c[1])
+        self.addtype(t, ty)
+        self.recvars.add((t, c))
+        return t
+
+    def _expr(self, e):
         if e is None:
             return None
         if isinstance(e, ast.Name):
@@ -943,7 +1037,7 @@ class FnTranslation:
                 self.emit('shallow', t, (b,))
                 return t
             self.expr(e.slice)
-            if b is None or self.typeof(e.value) == 'scalar':
+            if b is None or self.typeof(e.value) == 'scalar' or self.typeof(e) == 'scalar':
                 return None
             t = self.newvar('ix')
             self.emit('elem', t, b)
@@ -988,8 +1082,8 @@ class FnTranslation:
                     self.cur.pop(n, None)
                     self.weak.discard(n)
                 it = self.expr(g.iter)
-                ety = self.elemtype(self.typeof(g.iter))
-                if it is not None:
+                ety = self.untrunc(self.elemtype(self.typeof(g.iter)))
+                if it is not None and ety != 'scalar':
                     el = self.newvar('it')
                     self.emit('elem', el, it)
                     self.assign(g.target, el, ety, None)
@@ -1285,7 +1379,7 @@ class FnTranslation:
                     pass
                 # inherited / dataclass-generated / unknown method of a known package class
                 return self.builtin_method(m, recv, vals, known=False, what=f'{cls}.{m}', pos=pos, kw=kw)
-            if rty in ('dict', 'scalar') or rty.startswith('list'):
+            if rty in ('scalar', 'scalars') or rty.startswith('dict') or rty.startswith('list'):
                 return self.builtin_method(m, recv, vals, known=True, what=f'{rty}.{m}', pos=pos, kw=kw)
             # unknown receiver: every package class defining the name, joined with the builtin meaning
             cands = pkg.methods.get(m, [])
@@ -1400,10 +1494,19 @@ class Mirror:
         P[x] = (_union(d[0], c[0]), _union(d[1], c[1]), _union(d[2], c[2]))
 
     @staticmethod
+    def norm(o):
+        return ('inner', o[1]) if o[0] == 'recd' else (('root', o[1]) if o[0] == 'recTop' else o)
+
+    @staticmethod
+    def torec(o):
+        return ('recTop', o[1]) if o[0] == 'root' else (('recd', o[1]) if o[0] == 'inner' else o)
+
+    @staticmethod
     def link(P, tgt, a, b):
+        ntgt = {Mirror.norm(o) for o in tgt}
         for i, c in enumerate(P):
-            t = any(o in tgt for o in c[0])
-            r = any(o in tgt for o in c[1] + c[2])
+            t = any(Mirror.norm(o) in ntgt for o in c[0])
+            r = any(Mirror.norm(o) in ntgt for o in c[1] + c[2])
             if t or r:
                 P[i] = (c[0], _union(c[1], a if t else []), _union(_union(c[2], b if t else []), (a + b) if r else []))
 
@@ -1417,6 +1520,11 @@ class Mirror:
         if src[0] == 'below':
             c = self.argcell(P, args, src[1])
             return c[1] + c[2]
+        if src[0] == 'recs':
+            c = self.argcell(P, args, src[1])
+            return [self.torec(o) for o in c[1] + c[2]]
+        if src[0] == 'recTop':
+            return [self.torec(o) for o in self.argcell(P, args, src[1])[0]]
         if src[0] == 'fresh':
             return [('loc', ret)]
         return [('glob', src[1])]
@@ -1435,6 +1543,12 @@ class Mirror:
         elif k == 'elem':
             c = self.get(P, s[2])
             self.add(Q, s[1], (c[1], c[2], c[2]))
+        elif k == 'asRec':
+            c = self.get(P, s[2])
+            d = s[3]
+            self.add(Q, s[1], tuple([self.torec(o) for o in part] if lvl >= min(d, 2) else list(part) for lvl, part in enumerate(c)))
+        elif k == 'leaf':
+            self.add(Q, s[1], (list(self.get(P, s[2])[0]), [], []))
         elif k == 'fresh':
             self.add(Q, s[1], ([('loc', s[1])], [], []))
         elif k == 'shallow':
@@ -1514,7 +1628,8 @@ class Mirror:
             w = _union(w, self.targets(s, P))
 
         def src(o):
-            return {'root': ('top', o[1]), 'inner': ('below', o[1]), 'glob': ('glob', o[1]), 'loc': ('fresh',)}[o[0]]
+            return {'root': ('top', o[1]), 'inner': ('below', o[1]), 'recd': ('recs', o[1]), 'recTop': ('recTop', o[1]), 'glob': ('glob', o[1]),
+                    'loc': ('fresh',)}[o[0]]
 
         def dedup(l):
             out = []
@@ -1532,7 +1647,8 @@ class Mirror:
             for o in c[2]:
                 if o != ('inner', j):
                     links.append((j, False, src(o)))
-        return {'writes': dedup([(o[1], o[0] == 'inner') for o in w if o[0] in ('root', 'inner')]),
+        lv = {'root': [False], 'inner': [True], 'recd': [True], 'recTop': [False]}
+        return {'writes': dedup([(o[1], b) for o in w for b in lv.get(o[0], [])]),
                 'globals': dedup([o[1] for o in w if o[0] == 'glob']),
                 'retTop': dedup([src(o) for o in rc[0]]), 'retKids': dedup([src(o) for o in rc[1]]),
                 'retDeep': dedup([src(o) for o in rc[2]]), 'links': dedup(links)}, n
@@ -1603,8 +1719,10 @@ def lean_stmt(s):
         return f'.{k} {s[1]} {s[2]}'
     if k in ('alias', 'shallow', 'pack'):
         return f'.{k} {s[1]} [{", ".join(map(str, s[2]))}]'
-    if k in ('elem', 'store'):
+    if k in ('elem', 'store', 'leaf'):
         return f'.{k} {s[1]} {s[2]}'
+    if k == 'asRec':
+        return f'.asRec {s[1]} {s[2]} {s[3]}'
     if k in ('fresh', 'write', 'gwrite'):
         return f'.{k} {s[1]}'
     if k == 'call':
@@ -1684,6 +1802,12 @@ def generate():
             if mn.startswith('__') and mn.endswith('__') and mn not in ('__init__', '__post_init__'):
                 roots.append((q, None))
                 getters.append(q)
+    # explicit database editors (no annotation/dict/list parameter, so not part of the surface): analysed to show that the
+    # analysis does see writes to the EntryDb objects
+    db_editor_quals = [q for q in ('peptacular.mods.mod_db_setup.reload_all_databases', 'peptacular.mods.mod_db_setup.reset_all_databases')
+                       if q in pkg.funcs]
+    for q in db_editor_quals:
+        roots.append((q, None))
     tr.run(roots)
     n = len(tr.order)
     progs = [tr.progs[i] for i in range(n)]
@@ -1734,13 +1858,18 @@ def generate():
     lines.append('/-- property getters and implicitly invoked special methods (__eq__, __len__, __iter__, ...) -/')
     lines.append('def getters : List Nat := [' + ', '.join(map(str, getter_ids)) + ']')
     lines.append(chunked('globalNames', 'String', [lean_str(g) for g in pkg.gnames]))
+    db_ids = [g for (m, nm), g in sorted(pkg.globals.items(), key=lambda kv: kv[1]) if m == 'peptacular.mods.mod_db_setup' and nm.endswith('_DB')]
+    lines.append('/-- the module-level EntryDb objects (modification databases) -/')
+    lines.append('def dbGlobals : List Nat := [' + ', '.join(map(str, db_ids)) + ']')
+    lines.append('/-- explicit database editors (reload / reset), analysed for non-vacuity -/')
+    lines.append('def dbEditors : List Nat := [' + ', '.join(str(tr.variants[(q, None)]) for q in db_editor_quals) + ']')
     lines.append('end Gen')
     text = '\n'.join(lines) + '\n'
     info = {'functions': n, 'api_members': len(members), 'missing': missing, 'statements': sum(len(p['stmts']) for p in progs),
             'unresolved_calls': {k: sorted(v)[:6] for k, v in sorted(tr.log['unresolved_calls'].items())},
             'unknown_receiver_methods': {k: sorted(v)[:6] for k, v in sorted(tr.log['unknown_receiver_methods'].items())},
             'unknown_decorators': sorted(pkg.unknown_decorators), 'max_fuel': max(fuel), 'entries': entries,
-            'summaries': S, 'progs': progs, 'gnames': pkg.gnames}
+            'summaries': S, 'progs': progs, 'gnames': pkg.gnames, 'tables': tables}
     return text, info
 
 
@@ -1760,7 +1889,15 @@ if __name__ == '__main__':
     if '--write' in sys.argv:
         write_generated()
     S = info['summaries']
-    print(json.dumps({k: v for k, v in info.items() if k not in ('entries', 'summaries', 'progs', 'gnames')}, indent=1, default=str)[:6000])
+    print(json.dumps({k: v for k, v in info.items() if k not in ('entries', 'summaries', 'progs', 'gnames', 'tables')}, indent=1, default=str)[:6000])
+    for nm, fid, ed, rnd, ps, outside in info['entries']:
+        c = Mirror.get(info['tables'][fid], info['progs'][fid]['ret'])
+        objs = c[0] + c[1] + c[2]
+        sh = sorted({ps[o[1]] if o[1] < len(ps) else o[1] for o in objs if o[0] in ('root', 'inner')})
+        lv = [k for k, part in zip(('top', 'kids', 'deep'), c) if any(o[0] in ('root', 'inner') for o in part)]
+        gl = sorted({info['gnames'][o[1]] for o in objs if o[0] == 'glob'})
+        if (sh or gl) and not ed and not outside:
+            print('SHARE  ' + nm, sh, lv, gl)
     for nm, fid, ed, rnd, ps, outside in info['entries']:
         sm = S[fid]
         if sm['writes'] or sm['globals']:
